@@ -412,8 +412,13 @@ func transTypeLfd(transTV func(TypeVar) FType, lfd LetFuncDef) LetFuncDef {
 	return LetFuncDef{Fvar: nfvar, Params: nparams, Body: nbody}
 }
 
-func resolveOneTypeVar(rsv Resolver, tv TypeVar) FType {
-	recurse := (func(_r0 TypeVar) FType { return resolveOneTypeVar(rsv, _r0) })
+func resolveOneTypeVarIn(visiting []string, rsv Resolver, tv TypeVar) FType {
+	frt.IfOnly(slice.Forany(func(n string) bool {
+		return frt.OpEqual(n, tv.Name)
+	}, visiting), (func() {
+		frt.PipeUnit(frt.Sprintf1("Recursive type found while resolving type variable: %s.", tv.Name), PanicNow)
+	}))
+	recurse := (func(_r0 TypeVar) FType { return resolveOneTypeVarIn(slice.PushLast(tv.Name, visiting), rsv, _r0) })
 	ei := rsLookupEI(rsv, tv.Name)
 	rcand := ei.resType
 	switch _v15 := (rcand).(type) {
@@ -427,6 +432,10 @@ func resolveOneTypeVar(rsv Resolver, tv TypeVar) FType {
 	default:
 		return transTVFType(recurse, rcand)
 	}
+}
+
+func resolveOneTypeVar(rsv Resolver, tv TypeVar) FType {
+	return resolveOneTypeVarIn(emptySS(), rsv, tv)
 }
 
 func resolveType(rsv Resolver, ftp FType) FType {
